@@ -144,6 +144,26 @@ def _mk_machine(col, max_n, raise_sig=None):
             tails = data.draw(st.lists(st.sampled_from(ps), min_size=2, max_size=min(4, len(ps)), unique=True), label="tails")
             self._apply(["jte", tails, [e]])
 
+        @precondition(lambda self: not self.dead)
+        @rule(data=st.data())
+        def jte_like(self, data):
+            # exits chosen as the whole successor tuple of an existing block (what that block already joins), tails among
+            # the blocks that jump to one of them
+            top = self.ex.top()
+            ys = [k for k in sorted(top) if 1 <= len(top[k]["jt"]) <= 3 and not top[k]["be"] and all(t in top for t in top[k]["jt"]) and len(set(top[k]["jt"])) == len(top[k]["jt"])]
+            if not ys:
+                return
+            y = data.draw(st.sampled_from(ys), label="like")
+            exits = list(top[y]["jt"])
+            ps = sorted(k for k in top if k != y and any(t in exits and t not in top[k]["be"] for t in top[k]["jt"]))
+            if not ps:
+                return
+            mx = 1 if len(exits) >= 3 else 3
+            tails = data.draw(st.lists(st.sampled_from(ps), min_size=1, max_size=min(mx, len(ps)), unique=True), label="tails")
+            if len(tails) == 1 and len(exits) == 3:
+                return  # documented as unreachable
+            self._apply(["jte", tails, exits])
+
         @precondition(lambda self: self.dead)
         @rule()
         def noop(self):
